@@ -47,6 +47,7 @@ type RefInfo struct {
 	LateSerial int     // serial: replies read after their own window (own label)
 	NSent      int
 	Ref        []RefHop
+	Target     netip.Addr
 }
 
 func isDirectTCP(form string) bool { return form == "synack" || form == "rst" || form == "rstack" }
@@ -71,6 +72,7 @@ func Reference(sc *Scenario, o *Outcome, idx int) ([]RefHop, *RefInfo) {
 		}
 		if info.RunFlow == "" {
 			info.RunFlow = e.Probe.FlowKey()
+			info.Target = e.Probe.IP.Dst
 		}
 		sendLog = append(sendLog, sendRec{e.At, t})
 	}
@@ -192,6 +194,10 @@ func CheckRun(sc *Scenario, o *Outcome) ([]Diff, *RefInfo) {
 			continue
 		}
 		a, has := addrOf(h.IPAddress)
+		// C04 invariant that needs no reference: whatever packet was used, a destination-marked hop carries the target's address
+		if h.IsDest && has && info.Target.IsValid() && a != info.Target {
+			ds = append(ds, Diff{"C04", "dest-flag-non-target", fmt.Sprintf("hop TTL %d is marked as the destination but its address %s is not the target %s", h.TTL, a, info.Target)})
+		}
 		switch {
 		case has && isPoison(a):
 			ds = append(ds, Diff{"C01", "poison", fmt.Sprintf("hop TTL %d carries poison address %s (a must-reject packet was accepted)", h.TTL, a)})
